@@ -1,0 +1,15 @@
+//go:build verif
+
+/*
+ * Verification hooks (build tag `verif`). Nothing here is compiled into a normal build.
+ */
+
+package xdssuite
+
+// VerifHoldManager takes the write lock of the process-wide manager holder and returns the function
+// that releases it: callers of SetXDSResourceManager / XDSInited stall at their first lock operation
+// for as long as the script wants, so that overlapping first initialisations can be lined up.
+func VerifHoldManager() (release func()) {
+	xdsResourceManager.Lock()
+	return xdsResourceManager.Unlock
+}
